@@ -419,6 +419,13 @@ def directed_c01():
     D.append(("block_ends_in_yielding_switch", [Y("a"), ("block", [E(1), ("switch", None, "a&1", [("0", [Y("a + 1")])], None)]), Y("b + 9")]))
     D.append(("tswitch_define_init_no_default", [("raw", "var t any = a\nif g1 {\n\tt = \"s\"\n}"), ("raw", "switch k := b; v := t.(type) {\ncase int:\n\tYield(v + k)\n}"), Y("b + 9")]))
     D.append(("block_ends_in_yielding_if", [Y("a"), ("block", [E(1), ("if", "g1", [Y("a + 1")], None)]), Y("b + 9")]))
+    D.append(("if_assign_init_yielding", [("decl", "x", "a"), ("raw", "if x = b + 1; x&1 == 0 {\n\tYield(x + 1)\n}"), Y("x + 2")]))
+    D.append(("if_call_init_yielding", [("raw", "if rt.Emit(rt.EFF, 31); g1 {\n\tYield(a + 1)\n} else {\n\tYield(b + 2)\n}"), Y("a + 3")]))
+    D.append(("elseif_assign_init_yielding", [("decl", "x", "a"), ("raw", "if g1 {\n\tYield(x)\n} else if x = b + 1; g2 {\n\tYield(x + 1)\n} else {\n\trt.Emit(rt.EFF, 32)\n}"), Y("x + 2")]))
+    D.append(("if_define_init_yielding", [("raw", "if v := a + 1; v&1 == 0 {\n\tYield(v)\n} else {\n\tYield(v + 1)\n}"), Y("b")]))
+    D.append(("if_incdec_init_in_loop", [("decl", "c", "0"), ("for", ("decl", "i", "0"), "i < n", ("inc", "i"), [("raw", "if c++; c&1 == 1 {\n\tYield(c + i)\n}")]), Y("c + 9")]))
+    D.append(("else_block_starts_with_trivial_if", [("if", "g1", [Y("a + 1")], [("if", "g2", [E(1)], None), Y("b + 2"), E(2)]), Y("a + 3")]))
+    D.append(("else_block_trivial_if_in_loop", [("for", ("decl", "i", "0"), "i < n", ("inc", "i"), [("if", "i&1 == 0", [Y("i + 1")], [("if", "g2", [E(1)], None), E(2), Y("i + 2"), E(3)]), E(4)]), Y("a + 3")]))
     D.append(("yielding_switch_ends_loop", [("for", ("decl", "i", "0"), "i < n", ("inc", "i"), [("switch", None, "i&1", [("0", [Y("i + 1")])], None)]), Y("a + 2")]))
     return D
 
@@ -511,6 +518,11 @@ def corpus_run(ctx, fam, build, K, extra_adv, nlo=-1, nhi=3, stage1=False, secon
         corp.quarantine_unbuildable(("out",))
         if unbuildable_is_violation:
             front_end = list(corp.unbuildable.items())
+    if stage1:
+        for pid, msg in corp.missing.items():
+            if os.path.exists(os.path.join(ctx.ws, "unopt", corp.where.get(pid, "") or "", "gen_%s.go" % pid)) or any(
+                    os.path.exists(os.path.join(ctx.ws, "unopt", d, "gen_%s.go" % pid)) for d in corp.batches):
+                front_end.append((pid, "the optimising stage wrote no file although the unoptimised stage did: " + msg))
     if surviving_stub_is_violation:
         # C12: generated code that still calls the no-op stubs co.Yield / co.YieldFrom has silently
         # dropped a yield, whatever else it does (front-end observation, not a solver verdict)
@@ -606,6 +618,7 @@ def corpus_check(ctx, fam, build, K, extra_adv, level_extra, assumptions, floors
         "programs_compiled": compiled,
         "programs_rejected_by_compiler": len(rejected),
         "programs_output_unbuildable": len(unbuildable),
+        "programs_without_output_file": sum(len(r["corp"].missing) for r in runs),
         "rejected_samples": dict(list(rejected.items())[:5]),
         "rejected_by_message": hist(rejected.values()),
         "unbuildable_by_message": hist(unbuildable.values()),
